@@ -3,7 +3,6 @@ package engine
 import (
 	"fmt"
 	"math"
-	"sync/atomic"
 
 	gocvss20 "github.com/pandatix/go-cvss/20"
 	gocvss30 "github.com/pandatix/go-cvss/30"
@@ -30,7 +29,7 @@ func wellFormedScore(s float64, lo, hi int) string {
 	return ""
 }
 
-func c11Scores[T comparable, P Object[T]](r *Report, im *Impl[T, P], a spec.Assignment, o *T, rating func(float64) (string, error), vals *atomic.Int64) {
+func c11Scores[T comparable, P Object[T]](r *Report, im *Impl[T, P], a spec.Assignment, o *T, rating func(float64) (string, error), idx0 int, vals *Counter) {
 	ver := im.Ver
 	for i, sf := range im.Scores {
 		if sf.Name == "Impact" || sf.Name == "Exploitability" {
@@ -53,7 +52,7 @@ func c11Scores[T comparable, P Object[T]](r *Report, im *Impl[T, P], a spec.Assi
 				}
 			}
 		}
-		vals.Add(1)
+		vals.Add(idx0, 1)
 		if key != "" {
 			ac := a.Clone()
 			idx := i
@@ -75,24 +74,24 @@ func c11Scores[T comparable, P Object[T]](r *Report, im *Impl[T, P], a spec.Assi
 func CheckC11(r *Report) {
 	thorough := r.Tier == "thorough"
 	r.Rule = "E3 scorespace: every scoring method (v2: 3, v3: 3, v4: 1) on every v2 assignment, every v3 effective class (canonical and all-overridden representations) and every v4 effective class (canonical, all-overridden, supplemental defined): no panic, finite, == float64(k)/10 with 0<=k<=100 (v2 environmental: k<=100 only, per the property's exception), Rating accepts it (3.0/3.1/4.0); distinct = distinct objects scored"
-	var vals atomic.Int64
-	var states atomic.Int64
+	var vals Counter
+	var states Counter
 	bad := func(ver *spec.Version) func(a spec.Assignment, why string) {
 		return func(a spec.Assignment, why string) {
 			r.Violation(Case{Kind: "score-format", Key: "v" + ver.Name + "/cannot-build", Expected: "object built by Set", Observed: why, Args: map[string]any{"version": ver.Name, "vector": ver.Full(a)}}, nil)
 		}
 	}
 	Iterate(I20, allDims(spec.V2), v2zero(), 16, func(idx int, a spec.Assignment, o *gocvss20.CVSS20) {
-		states.Add(1)
-		c11Scores(r, I20, a, o, nil, &vals)
+		states.Add(idx, 1)
+		c11Scores(r, I20, a, o, nil, idx, &vals)
 	}, bad(spec.V2), r.TooMany)
 	Iterate(I30, v3ClassDims(spec.V30), v3bg(spec.V30), 16, func(idx int, a spec.Assignment, o *gocvss30.CVSS30) {
-		states.Add(1)
-		c11Scores(r, I30, a, o, gocvss30.Rating, &vals)
+		states.Add(idx, 1)
+		c11Scores(r, I30, a, o, gocvss30.Rating, idx, &vals)
 	}, bad(spec.V30), r.TooMany)
 	Iterate(I31, v3ClassDims(spec.V31), v3bg(spec.V31), 16, func(idx int, a spec.Assignment, o *gocvss31.CVSS31) {
-		states.Add(1)
-		c11Scores(r, I31, a, o, gocvss31.Rating, &vals)
+		states.Add(idx, 1)
+		c11Scores(r, I31, a, o, gocvss31.Rating, idx, &vals)
 	}, bad(spec.V31), r.TooMany)
 	rots := []int{1}
 	if thorough {
@@ -100,13 +99,15 @@ func CheckC11(r *Report) {
 	}
 	for _, rot := range rots {
 		sweepV3AllOverridden(r, I30, rot, func(a spec.Assignment, o *gocvss30.CVSS30) (string, string, string) {
-			states.Add(1)
-			c11Scores(r, I30, a, o, gocvss30.Rating, &vals)
+			idx := int(a[14])<<13 + int(a[15])<<14 + int(a[16])<<15 + int(a[19])<<17
+			states.Add(idx, 1)
+			c11Scores(r, I30, a, o, gocvss30.Rating, idx, &vals)
 			return "", "", ""
 		})
 		sweepV3AllOverridden(r, I31, rot, func(a spec.Assignment, o *gocvss31.CVSS31) (string, string, string) {
-			states.Add(1)
-			c11Scores(r, I31, a, o, gocvss31.Rating, &vals)
+			idx := int(a[14])<<13 + int(a[15])<<14 + int(a[16])<<15 + int(a[19])<<17
+			states.Add(idx, 1)
+			c11Scores(r, I31, a, o, gocvss31.Rating, idx, &vals)
 			return "", "", ""
 		})
 	}
@@ -142,8 +143,8 @@ func CheckC11(r *Report) {
 				if err != nil {
 					continue
 				}
-				states.Add(1)
-				vals.Add(1)
+				states.Add(idx, 1)
+				vals.Add(idx, 1)
 				s, p := v4ImplScore(&o)
 				key, obs := "", ""
 				if p != nil {
